@@ -205,7 +205,13 @@ pub fn gen_case2(prop: &str, tier: Tier, _seed: u64, idx: u64, r: &mut Rng) -> O
                     let threads = if small { 3 } else { *r.pick(&[1u32, 2, 4, 8, 16]) };
                     Case::Threads { hs, threads, seed: r.next_u64() }
                 }
-                2 => Case::Hist { h: gen_history(r, &o), side: Side::default() },
+                2 => {
+                    // a third of these keep calling after the first finish (further finishes,
+                    // writes): what the equivalent finish entry points leave behind must agree too
+                    let mut o3 = o.clone();
+                    o3.finish_games = r.chance(1, 3);
+                    Case::Hist { h: gen_history(r, &o3), side: Side::default() }
+                }
                 _ => {
                     // encode-only history for the convenience-path comparison
                     let mut o2 = o.clone();
@@ -301,9 +307,11 @@ fn ticks_s(t: u64) -> f64 {
 }
 
 /// Boundary scenarios: each pushes one derived quantity to within 2 of a field limit, from both sides.
-fn c16_case(r: &mut Rng, idx: u64) -> Case {
+pub fn c16_case(r: &mut Rng, idx: u64) -> Case {
     let mut cfg = Cfg::basic(*r.pick(&[H264, H265, AV1, VP9]));
     cfg.fast_start = Some(r.chance(1, 2));
+    // the builder aliases must enforce the same limits as video() / audio()
+    cfg.path = if r.chance(1, 3) { r.below(4) as u8 } else { 0 };
     let kf = |r: &mut Rng, c: u8| video_frame(r, c, FrameKind::KeyCfg, 8, false);
     let df = |r: &mut Rng, c: u8| video_frame(r, c, FrameKind::Delta, 6, false);
     let eps = *r.pick(&[-2i64, -1, 0, 1, 2]);
@@ -478,7 +486,9 @@ fn c16_case(r: &mut Rng, idx: u64) -> Case {
         }
         _ => {
             // ordinary histories: the casts must all fit
-            let o = GenOpts { hostile_pct: 0, reorder_pct: 40, audio_pct: 60, ..Default::default() };
+            // (with rejected calls in between: what a rejected call leaves behind must not show up
+            // in the declared durations either)
+            let o = GenOpts { hostile_pct: 12, reorder_pct: 40, audio_pct: 70, ..Default::default() };
             return Case::Hist { h: gen_history(r, &o), side: Side::default() };
         }
     }
@@ -571,7 +581,25 @@ fn c20_case(r: &mut Rng) -> CliCase {
                 let cut = r.usize_below(b.len().max(1));
                 b[..cut].to_vec()
             }
-            4 => vec![0u8; r.range(8, 200) as usize],
+            4 if r.chance(1, 2) => vec![0u8; r.range(8, 200) as usize],
+            4 => {
+                // 64-bit 'largesize' headers (size field 1) with every kind of 64-bit value
+                let mut v = Vec::new();
+                if r.chance(1, 2) {
+                    v.extend_from_slice(&[0, 0, 0, 16]);
+                    v.extend_from_slice(b"ftyp");
+                    v.extend_from_slice(b"isom\x00\x00\x02\x00");
+                }
+                for _ in 0..r.range(1, 3) {
+                    v.extend_from_slice(&1u32.to_be_bytes());
+                    v.extend_from_slice(r.pick(&[b"mdat", b"moov", b"free", b"\0\0\0\0"]).as_slice());
+                    let ls = *r.pick(&[0u64, 1, 8, 15, 16, 17, 24, 1 << 32, u64::MAX, u64::MAX - 7]);
+                    v.extend_from_slice(&ls.to_be_bytes());
+                    let n = r.range(0, 24) as usize;
+                    v.extend_from_slice(&r.bytes(n));
+                }
+                v
+            }
             _ => {
                 let mut v = vec![0, 0, 0, 8];
                 v.extend_from_slice(b"free");
@@ -619,7 +647,29 @@ fn c20_case(r: &mut Rng) -> CliCase {
     }
     // mux
     let (vn, vc) = *r.pick(&vnames);
-    let frame = video_frame(r, vc, FrameKind::KeyCfg, 12, false);
+    let mut frame = video_frame(r, vc, FrameKind::KeyCfg, 12, false);
+    if (vc == H264 || vc == H265) && r.chance(1, 5) {
+        // parameter sets followed by a slice that is NOT an IDR picture (open-GOP recovery point,
+        // BLA/CRA, or a plain slice): the tool declares its single frame a key frame, exactly as
+        // the library call with is_keyframe = true does
+        let mut f = Vec::new();
+        let mut push = |hdr: &[u8], n: usize, r: &mut Rng| {
+            f.extend_from_slice(&[0, 0, 0, 1]);
+            f.extend_from_slice(hdr);
+            f.extend(r.bytes(n).into_iter().map(|b| b | 4));
+        };
+        if vc == H264 {
+            push(&[0x67], 8, r);
+            push(&[0x68], 3, r);
+            push(&[*r.pick(&[0x41u8, 0x21, 0x61, 0x01])], 10, r);
+        } else {
+            push(&[32 << 1, 1], 6, r);
+            push(&[33 << 1, 1], 14, r);
+            push(&[34 << 1, 1], 4, r);
+            push(&[*r.pick(&[16u8, 17, 18, 21, 1, 0]) << 1, 1], 10, r);
+        }
+        frame = f;
+    }
     let mut c = CliCase {
         cmd: "mux".into(),
         vcodec: if vc == H264 && r.chance(1, 3) { None } else { Some(vn.to_string()) },
@@ -946,6 +996,13 @@ pub fn eval_case2(prop: &str, case: &Case, obs: &mut Obs) -> Vec<Violation> {
                         let t = day * 86_400 + sec;
                         add(mon::c18::check_date(t, obs), &mut out);
                         obs.nontrivial(t);
+                    }
+                    // right afterwards, on the same thread, the same position of another 400-year
+                    // Gregorian cycle (one muxer's date must not colour the next one's)
+                    let shift = 146_097 * r.range(1, 19);
+                    let other = if day + shift < DAYS_TO_9999 { Some(day + shift) } else if day >= shift { Some(day - shift) } else { None };
+                    if let Some(d2) = other {
+                        add(mon::c18::check_date(d2 * 86_400 + 43_200, obs), &mut out);
                     }
                     obs.count("enumerated:days", 1);
                 }
